@@ -247,9 +247,12 @@ def condom(f):
         except z3.Z3Exception as ze:
             raise ClaripyZ3Error from ze
         finally:
-            if handler_installed:
-                uninstall_sigint_handler()
-            _exit_z3()
+            try:
+                if handler_installed:
+                    uninstall_sigint_handler()
+            finally:
+                # whatever happens to the signal handler, this call is over
+                _exit_z3()
 
     return z3_condom
 
